@@ -2106,7 +2106,8 @@ class binary(base_quantizer.BaseQuantizer):  # pylint: disable=invalid-name
       # small, which occurs during initialization of weights.
       m = K.max(tf.abs(x), axis=axis, keepdims=True)
       m = tf.where(m > 1.0, tf.ones_like(m), m)
-      f = 2 * m
+      # an all-zero (or all-subnormal) channel would give f == 0 and NaN below
+      f = tf.maximum(2 * m, K.epsilon())
 
       x = tf_utils.smart_cond(
           K.learning_phase(),
